@@ -1,2 +1,31 @@
-(* C08 statements: being extended *)
-From Morph Require Import Base.UStr.
+(* C08 — statements land in exactly the graphs their graph maps name.  Statements only. *)
+From Morph Require Import Base.UStr Gen.Tables Model.Terms Model.Data Model.Engine Model.Mapping Proofs.GraphsP.
+
+(* normalisation (class -> POM, subject graphs -> POMs, default graph, in the code order): every predicate-object map is
+   given exactly the graph maps of its own and of the subject map, and the default graph iff there is none at all *)
+Theorem pom_gets_exactly_its_graphs : forall t p, In p (t_poms t) ->
+  exists p', In p' (t_poms (complete_default_graph (sgraphs_to_pom (class_to_pom t)))) /\ p_preds p' = p_preds p /\ p_objs p' = p_objs p /\
+             p_graphs p' = placed_graphs t p.
+Proof. exact pom_graphs. Qed.
+Print Assumptions pom_gets_exactly_its_graphs.
+Theorem default_graph_iff_none : forall t p, placed_graphs t p = [const_iri Tables.c_rml_default_graph] <->
+  (p_graphs p ++ t_sgraphs t = [] \/ p_graphs p ++ t_sgraphs t = [const_iri Tables.c_rml_default_graph]).
+Proof. exact default_graph_iff. Qed.
+Print Assumptions default_graph_iff_none.
+(* class declarations are placed in the graphs of the subject map *)
+Theorem class_statements_in_subject_graphs : forall t c, In c (t_classes t) ->
+  exists p', In p' (t_poms (complete_default_graph (sgraphs_to_pom (class_to_pom t)))) /\
+             p_preds p' = [const_iri Tables.c_rdf_type] /\ p_objs p' = [plain_obj (const_iri c)] /\
+             p_graphs p' = match t_sgraphs t with [] => [const_iri Tables.c_rml_default_graph] | gs => gs end.
+Proof. exact class_graphs. Qed.
+Print Assumptions class_statements_in_subject_graphs.
+(* engine: rr:defaultGraph gives an empty graph component; N-TRIPLES lines are exactly subject predicate object *)
+Theorem default_graph_has_empty_component : forall cfg fe rl r l, c_nquads cfg = true -> r_gk rl = KConst -> r_gv rl = Tables.c_rml_default_graph ->
+  finish_row cfg fe 0 rl r = Ok l -> forall r', In r' l -> exists t, rget col_triple r' = Some (t ++ [32%N]).
+Proof. exact finish_default_graph. Qed.
+Print Assumptions default_graph_has_empty_component.
+Theorem ntriples_is_graphless : forall cfg fe rl r l, c_nquads cfg = false -> finish_row cfg fe 0 rl r = Ok l ->
+  exists s p o, rget col_subject r = Some s /\ rget col_predicate r = Some p /\ rget col_object r = Some o /\
+                forall r', In r' l -> rget col_triple r' = Some (s ++ [32%N] ++ p ++ [32%N] ++ o).
+Proof. exact finish_ntriples. Qed.
+Print Assumptions ntriples_is_graphless.
